@@ -23,6 +23,7 @@ type faultSpec struct {
 	Index string // "" (scalar) | first | last | s0..s9 (seeded) | <number>
 	How   string
 	Pos   string // low | mid | high
+	One   bool   // p2p types only: alter the copy for ONE recipient, the other recipients get the genuine message
 }
 
 func (f faultSpec) String() string {
@@ -30,7 +31,11 @@ func (f faultSpec) String() string {
 	if f.Index != "" {
 		ix = "[" + f.Index + "]"
 	}
-	return fmt.Sprintf("%s.%s%s:%s@%s", f.Type, f.Field, ix, f.How, f.Pos)
+	one := ""
+	if f.One {
+		one = "/one-recipient"
+	}
+	return fmt.Sprintf("%s.%s%s:%s@%s%s", f.Type, f.Field, ix, f.How, f.Pos, one)
 }
 
 func (f faultSpec) P(base core.P) core.P {
@@ -38,12 +43,12 @@ func (f faultSpec) P(base core.P) core.P {
 	for k, v := range base {
 		p[k] = v
 	}
-	p["ftype"], p["ffield"], p["findex"], p["fhow"], p["fpos"] = f.Type, f.Field, f.Index, f.How, f.Pos
+	p["ftype"], p["ffield"], p["findex"], p["fhow"], p["fpos"], p["fone"] = f.Type, f.Field, f.Index, f.How, f.Pos, f.One
 	return p
 }
 
 func faultFromP(p core.P) faultSpec {
-	return faultSpec{Type: p.Str("ftype"), Field: p.Str("ffield"), Index: p.Str("findex"), How: p.Str("fhow"), Pos: p.Str("fpos")}
+	return faultSpec{Type: p.Str("ftype"), Field: p.Str("ffield"), Index: p.Str("findex"), How: p.Str("fhow"), Pos: p.Str("fpos"), One: p.Bool("fone")}
 }
 
 // uncoveredFields: (type.field) whose value no commitment opening, share check or ZK proof covers (from the protocol
@@ -307,9 +312,18 @@ func runFault(s *session, f faultSpec, sched string) (*faultRun, error) {
 		}
 	}
 	cache := map[int][]byte{}
+	var victim *sim.Node
 	w.Rewrite = func(w *sim.World, m *sim.Msg, to *sim.Node) ([]byte, bool, *tss.PartyID, bool) {
 		if m.From != fr.dev || m.Short != f.Type {
 			return m.Wire, m.Bcast, m.From.PID, false
+		}
+		if f.One && !sp.Bcast {
+			if victim == nil {
+				victim = to
+			}
+			if to != victim {
+				return m.Wire, m.Bcast, m.From.PID, false
+			}
 		}
 		if sp.Bcast {
 			if c, ok := cache[m.ID]; ok {
